@@ -916,7 +916,7 @@ def _check_capacity(repo, r4, schemes):
                     rt = ft.term(st.value.generators[0].iter, n.id)
                     sites.append(("allocation of the level lists", rt[2][0] if rt[0] == "call" and rt[1] == "range" and len(rt[2]) == 1 else rt, st))
                 if n.kind == "for" and isinstance(st.iter, ast.Call) and dotted(st.iter.func) == "range" and len(st.iter.args) == 1 and \
-                        not any(isinstance(a, ast.For) for a in ancestors(st)):
+                        not any(isinstance(a, (ast.For, ast.While)) for a in ancestors(st)):
                     sites.append(("level loop", ft.term(st.iter.args[0], n.id), st))
             allocs = [x for x in sites if x[0].startswith("allocation")]
             r4.require(len(allocs) >= 1 and len(sites) >= 2, enc, "level sites",
